@@ -52,6 +52,14 @@ def ghost(ctx):
     return ctx.store.setdefault(("ghost",), {"input_writes": (), "notes": ()})
 
 
+def no_input_writes(ctx):
+    """no store executed so far hit a buffer owned by an input (True, or the formula saying so)"""
+    ws = ghost(ctx)["input_writes"]
+    if not ws:
+        return True
+    return z3.Not(z3.Or(*ws))
+
+
 class DType:
     def __init__(self, kind, label=None):
         self.kind = kind
@@ -356,9 +364,12 @@ def arr_setitem(it, a, idx, v):
     """a[idx] = v  (in place).  Writing into a buffer owned by an input is recorded as a ghost event."""
     ctx = it.ctx
     root = a.root()
-    if root.owner != "fresh":
+    fr = a.freshness()
+    if fr is not True:
+        # the write hits a buffer that belongs to an input unless `fr` holds
         g = ghost(ctx)
-        ctx.store[("ghost",)] = {**g, "input_writes": g["input_writes"] + (f"write into buffer of {root.owner}",)}
+        cond = z3.BoolVal(True) if fr is False else z3.Not(fr)
+        ctx.store[("ghost",)] = {**g, "input_writes": g["input_writes"] + (cond,)}
     if a.base is not None:
         whole = a
         while whole.base is not None:
@@ -509,9 +520,22 @@ def arr_unop(it, a, op):
         return NDArr(it.ctx, Seq(s.len, lambda j: z3.Not(s.at(j)), BOOL), "bool", "fresh", a.cls)
     if isinstance(op, ast.USub) and s.sort == INT:
         return NDArr(it.ctx, Seq(s.len, lambda j: -s.at(j), INT), "int", "fresh", a.cls)
-    if isinstance(op, ast.USub) and s.sort == V:
-        neg = z3.Function("neg", V, V)
-        it.ctx.used_models.add("unary minus on a numeric array: order-reversing (signed kinds, no overflow) - assumed")
+    if isinstance(op, ast.Invert) and s.sort == INT:
+        return NDArr(it.ctx, Seq(s.len, lambda j: -s.at(j) - 1, INT), "int", "fresh", a.cls)
+    if isinstance(op, (ast.USub, ast.Invert)) and s.sort == V:
+        # -x on float / timedelta arrays, ~x on integer arrays: order-reversing, NaN / NaT stay what they are.
+        # (~x never overflows; -x is used by the code only for float and timedelta kinds.)
+        name = "neg" if isinstance(op, ast.USub) else "inv"
+        neg = z3.Function(name, V, V)
+        x, y = z3.Consts("x!ng y!ng", V)
+        ctx = it.ctx
+        done = ctx.__dict__.setdefault("_neg_axioms", set())
+        if name not in done:
+            done.add(name)
+            ctx.axioms.append(z3.ForAll([x, y], v_lt(neg(x), neg(y)) == v_lt(y, x), patterns=[z3.MultiPattern(neg(x), neg(y))]))
+            ctx.axioms.append(z3.ForAll([x, y], (neg(x) == neg(y)) == (x == y), patterns=[z3.MultiPattern(neg(x), neg(y))]))
+            ctx.axioms.append(z3.ForAll([x], z3.And(is_nan(neg(x)) == is_nan(x), is_nat(neg(x)) == is_nat(x)), patterns=[neg(x)]))
+        it.ctx.used_models.add("unary minus (float/timedelta) and bitwise not (integers) on arrays reverse the order; NaN/NaT unchanged - assumed")
         return NDArr(it.ctx, Seq(s.len, lambda j: neg(s.at(j)), V), a.kind, "fresh", a.cls)
     raise Unsupported("array unary operator")
 
